@@ -18,6 +18,7 @@ def jobs(pid, tier, seed):
     for name, params in scenarios.directed_for(pid, tier):
         out.append({"kind": "directed", "name": name, "params": params})
     out += [{"kind": "dirdup", "i": i} for i in range(16)]
+    out += [{"kind": "dirdup2", "i": i} for i in range(8)]
     n = 700 if tier == "quick" else 15000
     out += [{"kind": "dup", "seed": seed * 1000003 + i, "max": 4 if tier == "quick" else 12} for i in range(n)]
     return out
@@ -222,8 +223,51 @@ def dir_hist(i):
     return [s for s in b.h if s is not None]
 
 
+def dir_hist2(i):
+    """After a restart the app has stored rows but no objects in memory: the original command and its duplicate are the
+    first things the new process sees from that app; a sweep tick passes before the clients go on (whatever the server
+    keeps per connection or per side must survive the duplicate's connection going away)."""
+    from ..scenarios import HB, claimed
+    b = HB()
+    A0 = b.conn("app", "s1")
+    b.send(A0, type="claim", nameplate="7")
+    if i & 1:
+        b.send(A0, type="open", mailbox=claimed(A0))
+        b.add(A0, "first")
+    b.drop(A0)
+    b.adv(20)
+    b.restart()
+    A = b.conn("app", "s1")
+    cmd = ["release", "claim", "open", "close"][(i >> 1) & 3]
+    if cmd == "release":
+        b.send(A, type="release", nameplate="7")
+    elif cmd == "claim":
+        b.send(A, type="claim", nameplate="7")
+    elif cmd == "open":
+        b.send(A, type="open", mailbox=claimed(A0))
+    else:
+        b.send(A, type="close", mailbox=claimed(A0), mood="happy")
+    b.adv(300)          # one sweep tick
+    A2 = b.conn("app", "s1")
+    b.send(A2, type="open", mailbox=claimed(A0))
+    B = b.conn("app", "s2")
+    b.send(B, type="open", mailbox=claimed(A0))
+    b.add(B, "pake")
+    b.add(A2, "pake")
+    if cmd in ("release", "claim"):
+        b.send(A, type="open", mailbox=claimed(A0))
+        b.add(B, "late")
+    b.adv(300)
+    b.add(B, "later")
+    return b.h
+
+
 def run_job(pid, job, acc):
     import random
+    if job["kind"] == "dirdup2":
+        h = dir_hist2(job["i"])
+        check_history(acc, h, Config(usage=bool(job["i"] % 2)), job["i"], "dirdup2:%d" % job["i"], 50, random.Random(0))
+        return
     if job["kind"] == "directed":
         for case, hist, cfg, opts in scenarios.build(pid, job["name"], job["params"]):
             check_history(acc, hist, cfg, 0, case, 50, random.Random(0))
